@@ -1,6 +1,7 @@
 (** Reads of an LSM state return the latest acknowledged write, given the
-    structural and ordering invariants and that the state holds exactly the
-    history (up to overwritten equal internal keys). *)
+    structural invariant, the recency order of equal internal keys along the
+    scan, and that the state holds exactly the history (up to overwritten
+    equal internal keys).  No order between versions is assumed. *)
 From Coq Require Import List NArith Bool Lia Sorting.Sorted.
 From NoKV Require Import Base.Bytes Model.Lsm Spec.MvccSpec Proofs.LsmOrder Spec.LsmSpec Proofs.LsmRead Proofs.LsmGet.
 Import ListNotations.
@@ -24,11 +25,20 @@ Proof.
     apply (Hn x' Hx'). split; [congruence | lia].
 Qed.
 
+(** The flat scan returns the latest write of the scanned records. *)
+Lemma scan_latest k v srcs : scan_inv srcs -> is_latest (concat srcs) k v (tier_best k v srcs).
+Proof.
+  intros (Hs & Hp & Hw). pose proof (tier_best_scanned k v srcs Hs Hp Hw) as H.
+  destruct (tier_best k v srcs) as [x|]; cbn [scanned is_latest] in *; [|exact H].
+  destruct H as (H1 & H2 & _ & H3). auto.
+Qed.
+
 Theorem get_latest s ws k v :
-  src_inv s -> tier_inv (tiers_of s) -> content_ok s ws -> seq_functional ws ->
+  src_inv s -> scan_inv (scan_srcs s) -> content_ok s ws -> seq_functional ws ->
   get s k v = latest_at ws k v.
 Proof.
-  intros Hs Ht Hc Hf. rewrite (get_is_tget s k v Hs).
+  intros Hs Ht Hc Hf. rewrite (get_is_flat s k v Hs).
   eapply is_latest_unique; [exact Hf | | apply latest_at_is_latest].
-  eapply is_latest_transfer; [exact Hc|]. now apply tget_latest.
+  eapply is_latest_transfer; [exact Hc|]. change (all_recs (tiers_of s)) with (concat (scan_srcs s)).
+  now apply scan_latest.
 Qed.
